@@ -475,7 +475,7 @@ Proof.
   - hs. auto.
   - destruct (k_chan s) as [[i [|]]|]; try exact I. destruct (k_dead s); [exact I|]. apply handleWrite_H; auto.
   - destruct (k_chan s) as [[i [|]]|]; try exact I. destruct (k_dead s); [exact I|]. apply handleError_H; auto.
-  - destruct (min_due (timers s)); [|exact I]. destruct (has_dup _); [exact I|].
+  - destruct (min_due (timers s)); [|exact I].
     apply fire_all_H. hs. auto.
   - apply wp_bind. eapply wp_mono; [|apply run_n_H; auto]. intros s1 H1. cbn. hs.
     apply Hc_map; auto; fld.
@@ -484,7 +484,7 @@ Proof.
   - destruct (negb (user_api_ok s)); [exact I|]. destruct (connection s); [|exact I].
     destruct (find_user _ _); [exact I|]. cbn. apply setc_H; [fld|]; auto.
   - destruct (find_user _ _) as [c|]; [|exact I]. destruct (nth_error _ _); [|exact I].
-    destruct (_ && _); [exact I|]. cbn. apply setc_H; [fld|]; auto.
+    cbn. apply setc_H; [fld|]; auto.
 Qed.
 
 Lemma init_H : Hs None init.
